@@ -839,6 +839,32 @@ VARIANTS = [
      chain(rep_in(FHS, "_get_file_paths", "            files = os.listdir(directory)\n            file_paths = [\n                directory / file for file in files if os.path.isfile(directory / file)\n            ]\n",
                   "            file_paths = [\n                Path(file) for file in glob.glob(os.path.join(glob.escape(directory), \"*\")) if os.path.isfile(file)\n            ]\n"),
            rep(FHS, "import atexit\n", "import atexit\nimport glob\n"))),
+    ("C04", None, "twin: _delete_object_only through a higher-order claim helper and a nested function",
+     chain(rep_in(FHS, "_delete_object_only", "        try:\n            cid_refs_abs_path = self._get_hashstore_cid_refs_path(cid)\n            # If the refs file still exists, do not delete the object\n            self._synchronize_object_locked_cids(cid)\n            if os.path.isfile(cid_refs_abs_path):\n                debug_msg = (\n                    f\"Cid reference file exists for: {cid}, skipping delete request.\"\n                )\n                self.fhs_logger.debug(debug_msg)\n\n            else:\n                self._delete(\"objects\", cid)\n                info_msg = f\"Deleted object only for cid: {cid}\"\n                self.fhs_logger.info(info_msg)\n\n        finally:\n            self._release_object_locked_cids(cid)\n", "        cid_refs_abs_path = self._get_hashstore_cid_refs_path(cid)\n\n        def delete_unless_referenced():\n            if os.path.isfile(cid_refs_abs_path):\n                self.fhs_logger.debug(f\"Cid reference file exists for: {cid}, skipping delete request.\")\n            else:\n                self._delete(\"objects\", cid)\n                self.fhs_logger.info(f\"Deleted object only for cid: {cid}\")\n\n        self._with_claim(self._synchronize_object_locked_cids, self._release_object_locked_cids, cid, delete_unless_referenced)\n"),
+           rep(FHS, "    def _delete_object_only(self, cid: str) -> None:\n", "    def _with_claim(self, synchronize, release, identifier, action):\n        synchronize(identifier)\n        try:\n            return action()\n        finally:\n            release(identifier)\n\n    def _delete_object_only(self, cid: str) -> None:\n"))),
+    ("C07", None, "twin: _delete_object_only through a higher-order claim helper and a lambda",
+     chain(rep_in(FHS, "_delete_object_only", "        try:\n            cid_refs_abs_path = self._get_hashstore_cid_refs_path(cid)\n            # If the refs file still exists, do not delete the object\n            self._synchronize_object_locked_cids(cid)\n            if os.path.isfile(cid_refs_abs_path):\n                debug_msg = (\n                    f\"Cid reference file exists for: {cid}, skipping delete request.\"\n                )\n                self.fhs_logger.debug(debug_msg)\n\n            else:\n                self._delete(\"objects\", cid)\n                info_msg = f\"Deleted object only for cid: {cid}\"\n                self.fhs_logger.info(info_msg)\n\n        finally:\n            self._release_object_locked_cids(cid)\n", "        cid_refs_abs_path = self._get_hashstore_cid_refs_path(cid)\n        self._with_claim(\n            self._synchronize_object_locked_cids,\n            self._release_object_locked_cids,\n            cid,\n            lambda: None if os.path.isfile(cid_refs_abs_path) else self._delete(\"objects\", cid),\n        )\n"),
+           rep(FHS, "    def _delete_object_only(self, cid: str) -> None:\n", "    def _with_claim(self, synchronize, release, identifier, action):\n        synchronize(identifier)\n        try:\n            return action()\n        finally:\n            release(identifier)\n\n    def _delete_object_only(self, cid: str) -> None:\n"))),
+    ("C04", "C04.b", "higher-order claim helper: the reference test is made before the claim, only the removal runs inside it",
+     chain(rep_in(FHS, "_delete_object_only", "        try:\n            cid_refs_abs_path = self._get_hashstore_cid_refs_path(cid)\n            # If the refs file still exists, do not delete the object\n            self._synchronize_object_locked_cids(cid)\n            if os.path.isfile(cid_refs_abs_path):\n                debug_msg = (\n                    f\"Cid reference file exists for: {cid}, skipping delete request.\"\n                )\n                self.fhs_logger.debug(debug_msg)\n\n            else:\n                self._delete(\"objects\", cid)\n                info_msg = f\"Deleted object only for cid: {cid}\"\n                self.fhs_logger.info(info_msg)\n\n        finally:\n            self._release_object_locked_cids(cid)\n", "        cid_refs_abs_path = self._get_hashstore_cid_refs_path(cid)\n        referenced = os.path.isfile(cid_refs_abs_path)\n        self._with_claim(\n            self._synchronize_object_locked_cids,\n            self._release_object_locked_cids,\n            cid,\n            lambda: None if referenced else self._delete(\"objects\", cid),\n        )\n"),
+           rep(FHS, "    def _delete_object_only(self, cid: str) -> None:\n", "    def _with_claim(self, synchronize, release, identifier, action):\n        synchronize(identifier)\n        try:\n            return action()\n        finally:\n            release(identifier)\n\n    def _delete_object_only(self, cid: str) -> None:\n"))),
+    ("C13", "C13.f", "roll-back gated by a 'files in place' flag that is set only after the second move",
+     chain(rep_in(FHS, "_store_hashstore_refs_files", "            try:\n                # Prepare files and paths\n", "            refs_files_in_place = False\n            try:\n                # Prepare files and paths\n"),
+           rep_in(FHS, "_store_hashstore_refs_files", "                shutil.move(cid_tmp_file_path, cid_refs_path)\n", "                shutil.move(cid_tmp_file_path, cid_refs_path)\n                refs_files_in_place = True\n"),
+           rep_in(FHS, "_store_hashstore_refs_files", "                self._untag_object(pid, cid)\n                raise ue\n", "                if refs_files_in_place:\n                    self._untag_object(pid, cid)\n                raise ue\n"))),
+    ("C13", None, "twin: roll-back gated by a flag that is set right after the pid reference is moved (both branches)",
+     chain(rep_in(FHS, "_store_hashstore_refs_files", "            try:\n                # Prepare files and paths\n", "            refs_files_in_place = False\n            try:\n                # Prepare files and paths\n"),
+           rep_in(FHS, "_store_hashstore_refs_files", "shutil.move(pid_tmp_file_path, pid_refs_path)\n", "shutil.move(pid_tmp_file_path, pid_refs_path)\n                    refs_files_in_place = True\n", count=1) if False else
+           (lambda src: (lambda s0: None if s0.count("                    shutil.move(pid_tmp_file_path, pid_refs_path)\n") != 1 or s0.count("                shutil.move(pid_tmp_file_path, pid_refs_path)\n                shutil.move(cid_tmp_file_path") != 1 else
+                         {**src, FHS: s0.replace("                    shutil.move(pid_tmp_file_path, pid_refs_path)\n", "                    shutil.move(pid_tmp_file_path, pid_refs_path)\n                    refs_files_in_place = True\n")
+                                       .replace("                shutil.move(pid_tmp_file_path, pid_refs_path)\n                shutil.move(cid_tmp_file_path", "                shutil.move(pid_tmp_file_path, pid_refs_path)\n                refs_files_in_place = True\n                shutil.move(cid_tmp_file_path")})(src[FHS])),
+           rep_in(FHS, "_store_hashstore_refs_files", "                self._untag_object(pid, cid)\n                raise ue\n", "                if refs_files_in_place:\n                    self._untag_object(pid, cid)\n                raise ue\n"))),
+    ("C12", "C12.j", "delete-all claims the document under a path object (relative_to) instead of its name",
+     rep_in(FHS, "delete_metadata", "                    pid_doc = os.path.basename(path)\n", "                    pid_doc = path.relative_to(metadata_rel_path)\n")),
+    ("C15", "C15.c", "cid list rewritten from a size-limited readlines()",
+     rep_in(FHS, "_update_refs_file", "                        for cid_pid_line in ref_file.readlines()\n", "                        for cid_pid_line in ref_file.readlines(io.DEFAULT_BUFFER_SIZE)\n")),
+    ("C15", None, "twin: readlines(-1) reads all lines",
+     rep_in(FHS, "_update_refs_file", "                        for cid_pid_line in ref_file.readlines()\n", "                        for cid_pid_line in ref_file.readlines(-1)\n")),
     ("C13", "C13.h", "return inside finally swallows the error",
      rep_in(FHS, "_delete_object_only", "        finally:\n            self._release_object_locked_cids(cid)\n", "        finally:\n            self._release_object_locked_cids(cid)\n            return\n")),
 ]
